@@ -50,6 +50,27 @@ def run(repo, rep, tier):
     _emission(repo, rep)
     _default_paths(repo, rep)
     _defaults(repo, rep)
+    # the expression of a dynamic attribute is entity-decoded ONCE: the
+    # statement value is decoded as a whole where the element is visited;
+    # the node builder must not decode the parts again (and its three
+    # branches -- dictionary, boolean, substitution -- must agree)
+    ve_ = repo.func("chameleon.zpt.program.MacroProgram.visit_element")
+    upstream = any(isinstance(n, ast.Assign) and
+                   src(n.targets[0]).startswith("ns[") and
+                   "decode_htmlentities(" in src(n.value)
+                   for n in ast.walk(ve_.node))
+    cn_ = repo.func("chameleon.zpt.program.MacroProgram."
+                    "_create_attributes_nodes")
+    again = [n for n in ast.walk(cn_.node) if isinstance(n, ast.Call)
+             and src(n.func) == "decode_htmlentities"]
+    rep.check(upstream and not again, "R07.3", cn_.qualname, "the "
+              "expression text of a tal:attributes entry reaches the engine "
+              "entity-decoded exactly once (decoded with the whole statement "
+              "value, not again per entry): '&amp;amp;' is '&amp;' for the "
+              "expression, as in tal:content", construct="decoded-once",
+              where=L.where(cn_, again[0].lineno) if again else L.where(cn_),
+              detail="statement values decoded upstream: %s; decoded again "
+                     "at %s" % (upstream, [n.lineno for n in again]))
     # the table of HTML boolean attributes is a list of single words
     nt, glued = L.glued_words(repo, ("chameleon.zpt.template",
                                      "chameleon.zpt.program"))
